@@ -13,6 +13,7 @@
 import PopsModel.Driver.Util
 import PopsModel.Model.HostPred
 import PopsModel.Model.Treat
+import PopsModel.Model.Actions
 namespace Pops.Driver.HostEng
 open Pops Pops.Driver
 
@@ -23,6 +24,11 @@ structure State where
   cols : Nat := 0
   cells : List Cell := []
   suit : List (Int × Int) := []
+  pest : PestState := { disp := [], est := [], outside := [] }
+  cfg : StepCfg := default
+  rasterEntry : Bool := false
+  uniforms : List Rat := []
+  tainted : Bool := false        -- a treatment broke i = sum(mort) earlier in this run (F20)
 deriving Inhabited
 
 def intList? (s : String) : Option (List Int) :=
@@ -59,7 +65,7 @@ structure Obs where
 
 def obs? (toks : List String) : Option Obs :=
   match segments toks with
-  | [ret, cs, su] => do
+  | ret :: cs :: su :: _ => do
     let cells ← cs.mapM cell?
     let suit ← su.mapM pair?
     some { ret, cells, suit }
@@ -121,16 +127,137 @@ def ratsFor (st : State) (toks : List String) : Option (List Rat) := do
   let l ← parseRats? toks
   if l.length = st.rows * st.cols then some l else none
 
+
+/-- Checks of one host move (C01 ledger, C02, C03, C17 amount and suitability, exact replay with
+    inferred draws). `ret` is the returned count when the caller observes it. -/
+def checkMove (st : State) (pre post : List Cell) (obsSuit : List (Int × Int))
+    (r1 c1 r2 c2 cnt : Int) (ret : Option String) : String :=
+  let a := idx st r1 c1
+  let b := idx st r2 c2
+  let src := pre[a]!
+  let dst := pre[b]!
+  let src' := post[a]!
+  let dst' := post[b]!
+  -- target joins the suitable cells when it had no host before
+  let expSuit := if dst.th == 0 && !(st.suit.contains (r2, c2)) then st.suit ++ [(r2, c2)] else st.suit
+  if a == b then
+    (if post == pre then (if obsSuit == expSuit then "ok" else "MISMATCH hp.move suitable") else "MISMATCH hp.move same-cell changed")
+  else
+    let others := (List.range pre.length).all fun k => k == a || k == b || pre[k]! == post[k]!
+    if !others then "PROPFAIL C17 move_touched_other_cells"
+    else if !(moveLedgerOK src dst src' dst') then
+      s!"PROPFAIL C01 move_ledger src={showCell src} dst={showCell dst} src'={showCell src'} dst'={showCell dst'}"
+    else if src.nonNeg && dst.nonNeg && !(src'.nonNeg && dst'.nonNeg) then
+      s!"PROPFAIL C02 nonneg move src'={showCell src'} dst'={showCell dst'}"
+    else if src.totalsOK && dst.totalsOK && !(src'.totalsOK && dst'.totalsOK) then
+      s!"PROPFAIL C03 totals move src'={showCell src'} dst'={showCell dst'}"
+    else if src.mortOK && dst.mortOK && src.totalsOK && !(src'.mortOK && dst'.mortOK) then
+      s!"PROPFAIL C03 mortality_cohorts move src'={showCell src'} dst'={showCell dst'}"
+    else if src.consistent && ret.isSome && ret != some (toString (min cnt src.hosts)) then
+      s!"PROPFAIL C17 move_amount ret={ret} expected={min cnt src.hosts}"
+    else if src.consistent && decide (src.hosts - src'.hosts ≠ min cnt src.hosts) then
+      s!"PROPFAIL C17 move_amount hosts_left={src.hosts - src'.hosts}"
+    else if src.consistent && !(obsSuit.contains (r2, c2)) && decide (min cnt src.hosts > 0) then
+      "PROPFAIL C17 target_not_suitable"
+    else
+      let d : ClassDraw := { i := src.i - src'.i, s := src.s - src'.s, e := src.te - src'.te, r := src.r - src'.r }
+      let drawE := subL src.e src'.e
+      let drawM := subL src.mort src'.mort
+      if !(validClassDrawB src cnt d) then s!"MISMATCH hp.move class-draw-invalid i={d.i} s={d.s} e={d.e} r={d.r}"
+      else if d.e > 0 && !(validDrawB src.e d.e drawE) then "MISMATCH hp.move exposed-draw-invalid"
+      else if d.i > 0 && !(validDrawB src.mort d.i drawM) then "MISMATCH hp.move mortality-draw-invalid"
+      else
+        let (ms, md, moved) := moveHosts src dst cnt d drawE drawM
+        if ret.isSome && ret != some (toString moved) then s!"MISMATCH hp.move ret model={moved}"
+        else if obsSuit != expSuit then "MISMATCH hp.move suitable"
+        else cmpCells "hp.move" ((pre.set a ms).set b md) post
+
+/-- `name=value` token. -/
+def kv? (tok : String) (key : String) : Option String :=
+  if tok.startsWith (key ++ "=") then some (tok.drop (key.length + 1)).toString else none
+
+def flagSched? (v : String) : Option (Bool × List Bool) :=
+  match v.splitOn ":" with
+  | [f, b] => some (f == "1", if b == "-" then [] else parseBits b)
+  | _ => none
+
+def pairs? (s : String) (sep : String) : Option (List (Int × Int)) :=
+  if s = "-" ∨ s = "" then some [] else (s.splitOn sep).mapM pair?
+
+def ratList? (s : String) : Option (List Rat) := (s.splitOn ",").mapM parseRat?
+
+def kindOfName (n : String) : Option ActionKind :=
+  documentedOrder.find? fun k => k.name == n
+
+/-- `name:idx,name:idx` -/
+def trace? (s : String) : Option (List (ActionKind × Int)) :=
+  if s = "-" then some [] else (s.splitOn ",").mapM fun t =>
+    match t.splitOn ":" with
+    | [n, i] => do let k ← kindOfName n; let i ← parseInt? i; some (k, i)
+    | _ => none
+
 def handle (st : State) (cmd : String) (inp obsToks : List String) : State × String :=
   match cmd, inp with
   | "hp.begin", [mt, lat, rows, cols] =>
     match modelTypeFromString mt, parseNat? lat, parseNat? rows, parseNat? cols with
-    | .ok mt, some l, some r, some c => ({ st with mt := mt, latency := l, rows := r, cols := c, cells := [], suit := [] }, "ok")
+    | .ok mt, some l, some r, some c =>
+      let z := List.replicate (r * c) (0 : Int)
+      ({ st with mt := mt, latency := l, rows := r, cols := c, cells := [], suit := [], tainted := false, uniforms := [],
+                 pest := { disp := z, est := z, outside := [] } }, "ok")
     | _, _, _, _ => (st, "BADLINE")
   | "hp.state", [] =>
     match obs? obsToks with
     | some o => finish st o "ok"
     | none => (st, "BADLINE")
+  | "hp.uniforms", [us] =>
+    match (us.splitOn ",").mapM parseInt? with
+    | some l => ({ st with uniforms := l.map fun k => mkRat k 64 }, "ok")
+    | none => (st, "BADLINE")
+  | "hp.cfg", toks =>
+    let get (key : String) : Option String := toks.findSome? (kv? · key)
+    match get "entry", get "soils", (get "lethal").bind flagSched?, (get "survival").bind flagSched?, get "spread", get "overpop",
+          get "movements", get "treatments", (get "mortality").bind flagSched?, (get "rates").bind flagSched?, (get "quarantine").bind flagSched? with
+    | some entry, some soils, some (useL, schL), some (useS, schS), some sp, some ov, some mv, some tr, some (useM, schM), some (useR, schR), some (useQ, schQ) =>
+      let cfg : StepCfg := {
+        soils := soils == "1", useLethal := useL, lethalSched := schL, useSurvival := useS, survivalSched := schS,
+        spreadSched := parseBits sp, useOverpop := ov == "1", useMovements := mv == "1", useTreatments := tr == "1",
+        useMortality := useM, mortalitySched := schM, useSpreadRates := useR, rateSched := schR, useQuarantine := useQ, quarantineSched := schQ }
+      ({ st with cfg := cfg, rasterEntry := entry == "rasters" }, "ok")
+    | _, _, _, _, _, _, _, _, _, _, _ => (st, "BADLINE cfg")
+  | "hp.plan", [stepTok] =>
+    match parseNat? stepTok, obsToks with
+    | some step, [status, tr] =>
+      match trace? tr with
+      | none => (st, "BADLINE trace")
+      | some observed =>
+        let expected := plan st.cfg step
+        let expKinds := expected.map (·.1)
+        let obsKinds := observed.map (·.1)
+        if status ≠ "ok" then
+          -- the step threw: mortality through the raster entry point is the open finding F18;
+          -- mortality failing after a rounding-inconsistent treatment is the downstream face of F20
+          let mortNext := expKinds.contains .mortality && !(obsKinds.contains .mortality) &&
+            obsKinds == expKinds.takeWhile (· != .mortality)
+          let rateNext := expKinds.contains .spreadRate && !(obsKinds.contains .spreadRate) &&
+            obsKinds == expKinds.takeWhile (· != .spreadRate)
+          if rateNext && st.rasterEntry && status == "err:out_of_range" then
+            (st, s!"KNOWN C09 F26 step={step} raster entry point with use_spreadrates threw {status} at the spread-rate measurement")
+          else if mortNext && st.rasterEntry && status == "err:invalid_argument" then
+            (st, s!"KNOWN C09 F18 step={step} raster entry point with use_mortality threw {status}")
+          else if mortNext && st.tainted && status == "err:runtime_error" then
+            (st, s!"KNOWN C03 F20 step={step} mortality failed after a treatment whose per-cohort rounding broke i = sum(mort)")
+          else (st, s!"PROPFAIL C09 step_threw step={step} {status} trace={tr}")
+        else
+          -- C09: exactly the enabled and scheduled actions, in the documented order, with the index of the firing
+          let orderOK := obsKinds == documentedOrder.filter (obsKinds.contains ·) && obsKinds.eraseDups == obsKinds
+          let iffOK := documentedOrder.all fun k => obsKinds.contains k == st.cfg.runs step k
+          let idxOK := observed.all fun (k, i) => match st.cfg.inputIndex step k with | some j => i == (j : Int) | none => true
+          if !orderOK then (st, s!"PROPFAIL C09 order step={step} trace={tr}")
+          else if !iffOK then (st, s!"PROPFAIL C09 enabled_and_scheduled step={step} trace={tr} expected={expKinds.map ActionKind.name}")
+          else if !idxOK then (st, s!"PROPFAIL C09 input_index step={step} trace={tr}")
+          else if obsKinds != expKinds then (st, s!"MISMATCH hp.plan model={expKinds.map ActionKind.name}")
+          else (st, "ok")
+    | _, _ => (st, "BADLINE")
   | _, _ =>
     match obs? obsToks with
     | none => (st, "BADLINE obs")
@@ -232,45 +359,7 @@ def handle (st : State) (cmd : String) (inp obsToks : List String) : State × St
       | "hp.move", [r1, c1, r2, c2, cnt] =>
         match parseInt? r1, parseInt? c1, parseInt? r2, parseInt? c2, parseInt? cnt, o.ret with
         | some r1, some c1, some r2, some c2, some cnt, [ret] =>
-          let a := idx st r1 c1
-          let b := idx st r2 c2
-          let src := pre[a]!
-          let dst := pre[b]!
-          let src' := post[a]!
-          let dst' := post[b]!
-          -- target joins the suitable cells when it had no host before
-          let expSuit := if dst.th == 0 && !(st.suit.contains (r2, c2)) then st.suit ++ [(r2, c2)] else st.suit
-          if a == b then
-            finish st o (if post == pre then (if o.suit == expSuit then "ok" else "MISMATCH hp.move suitable") else "MISMATCH hp.move same-cell changed")
-          else
-            let others := (List.range pre.length).all fun k => k == a || k == b || pre[k]! == post[k]!
-            if !others then finish st o "PROPFAIL C17 move_touched_other_cells"
-            else if !(moveLedgerOK src dst src' dst') then
-              finish st o s!"PROPFAIL C01 move_ledger src={showCell src} dst={showCell dst} src'={showCell src'} dst'={showCell dst'}"
-            else if src.nonNeg && dst.nonNeg && !(src'.nonNeg && dst'.nonNeg) then
-              finish st o s!"PROPFAIL C02 nonneg move src'={showCell src'} dst'={showCell dst'}"
-            else if src.totalsOK && dst.totalsOK && !(src'.totalsOK && dst'.totalsOK) then
-              finish st o s!"PROPFAIL C03 totals move src'={showCell src'} dst'={showCell dst'}"
-            else if src.mortOK && dst.mortOK && src.totalsOK && !(src'.mortOK && dst'.mortOK) then
-              finish st o s!"PROPFAIL C03 mortality_cohorts move src'={showCell src'} dst'={showCell dst'}"
-            else if src.consistent && ret ≠ toString (min cnt src.hosts) then
-              finish st o s!"PROPFAIL C17 move_amount ret={ret} expected={min cnt src.hosts}"
-            else if src.consistent && decide (src.hosts - src'.hosts ≠ min cnt src.hosts) then
-              finish st o s!"PROPFAIL C17 move_amount hosts_left={src.hosts - src'.hosts}"
-            else if src.consistent && !(o.suit.contains (r2, c2)) && decide (min cnt src.hosts > 0) then
-              finish st o "PROPFAIL C17 target_not_suitable"
-            else
-              let d : ClassDraw := { i := src.i - src'.i, s := src.s - src'.s, e := src.te - src'.te, r := src.r - src'.r }
-              let drawE := subL src.e src'.e
-              let drawM := subL src.mort src'.mort
-              if !(validClassDrawB src cnt d) then finish st o s!"MISMATCH hp.move class-draw-invalid i={d.i} s={d.s} e={d.e} r={d.r}"
-              else if d.e > 0 && !(validDrawB src.e d.e drawE) then finish st o "MISMATCH hp.move exposed-draw-invalid"
-              else if d.i > 0 && !(validDrawB src.mort d.i drawM) then finish st o "MISMATCH hp.move mortality-draw-invalid"
-              else
-                let (ms, md, moved) := moveHosts src dst cnt d drawE drawM
-                if toString moved ≠ ret then finish st o s!"MISMATCH hp.move ret model={moved}"
-                else if o.suit != expSuit then finish st o "MISMATCH hp.move suitable"
-                else finish st o (cmpCells cmd ((pre.set a ms).set b md) post)
+          finish st o (checkMove st pre post o.suit r1 c1 r2 c2 cnt (some ret))
         | _, _, _, _, _, _ => (st, "BADLINE")
       -- SimpleTreatment / PesticideTreatment apply over suitable cells: kind app coefs...
       | "hp.treat", kind :: app :: coefToks =>
@@ -435,6 +524,129 @@ def handle (st : State) (cmd : String) (inp obsToks : List String) : State × St
             | some v => finish st o v
             | none => finish st o (cmpCells cmd (pre.map (Cell.stepForward st.mt st.latency step)) post)
         | none => (st, "BADLINE")
+      -- generic per-action snapshot from the model hook: action step idx
+      | "hp.after", [action, _step, _idx] =>
+        if action == "treatments" then
+          let cls : Nat → Ledger := fun _ => .removal
+          match invariants pre post cls true noSkip with
+          | some v => finish st o v
+          | none =>
+            let broke := (List.range pre.length).any fun k => (pre[k]!).mortOK && !(post[k]!).mortOK
+            let st' := if broke then { st with tainted := true } else st
+            finish st' o "ok"
+        else
+          -- soil ageing and the two measurements never change host rasters
+          finish st o (if post == pre && o.suit == st.suit then "ok" else s!"PROPFAIL C09 {action}_changed_hosts")
+      -- spread (generate + disperse) through the model with the injected kernel
+      | "hp.spread", toks =>
+        let get (key : String) : Option String := toks.findSome? (kv? · key)
+        match get "det", (get "rr").bind parseRat?, get "soil", get "sto", (get "pest").bind parseRat?,
+              (get "npop").bind intList?, get "w", (get "targets").bind (pairs? · ";"), segments obsToks with
+        | some det, some rr, some soil, some sto, some pEst, some npop, some wTok, some targets, [_, _, _, dispT, estT, outT] =>
+          match parseInts? dispT, parseInts? estT, outT.mapM pair? with
+          | some dispO, some estO, some outO =>
+            let g : Grid := { rows := st.rows, cols := st.cols }
+            let w : Option (List Rat) := if wTok == "none" then none else ratList? wTok
+            let soilPct : Option Rat := if soil == "none" then none else parseRat? soil
+            let det := det == "1"
+            let suitIdx := st.suit.map fun (r, c) => g.idx r c
+            match invariants pre post reclass false noSkip with
+            | some v => finish st o v
+            | none =>
+              let genModel := detGenerated g st.suit pre rr w
+              -- C04 predicates on the observed rasters
+              let p1 : Option String := (List.zip suitIdx genModel).findSome? fun (k, gm) =>
+                let cell := pre[k]!
+                if cell.i ≤ 0 && dispO[k]! != 0 then some s!"PROPFAIL C04 dispersers_without_infection cell={k} disp={dispO[k]!}"
+                else if det && soilPct.isNone && dispO[k]! != gm then some s!"PROPFAIL C04 deterministic_count cell={k} disp={dispO[k]!} expected={gm}"
+                else if det && soilPct.isSome && gm > 0 && dispO[k]! != gm - lround (soilPct.get! * gm) then
+                  some s!"PROPFAIL C04 soil_split cell={k} disp={dispO[k]!} generated={gm}"
+                else if estO[k]! < 0 || estO[k]! > dispO[k]! then some s!"PROPFAIL C04 established_le_generated cell={k} est={estO[k]!} disp={dispO[k]!}"
+                else none
+              let totalDisp := sumL (suitIdx.map fun k => dispO[k]!)
+              let sDrop := sumL ((List.range pre.length).map fun k => (pre[k]!).s - (post[k]!).s)
+              let totalEst := sumL (suitIdx.map fun k => estO[k]!)
+              let expOutside := targets.filter fun (r, c) => g.isOutside r c
+              let p2 : Option String :=
+                if p1.isSome then p1
+                else if (targets.length : Int) != totalDisp then some s!"PROPFAIL C04 one_target_per_disperser targets={targets.length} dispersers={totalDisp}"
+                else if outO != expOutside then some s!"PROPFAIL C04 outside_recorded observed={outO.length} expected={expOutside.length}"
+                else if soilPct.isNone && sDrop != totalEst then some s!"PROPFAIL C04 ledger susceptible_consumed={sDrop} established={totalEst}"
+                else if soilPct.isSome && sDrop < totalEst then some s!"PROPFAIL C04 ledger susceptible_consumed={sDrop} established={totalEst}"
+                else none
+              match p2 with
+              | some v => finish st o v
+              | none =>
+                let st1 := { st with pest := { disp := dispO, est := estO, outside := st.pest.outside ++ outO } }
+                if soilPct.isSome then finish st1 o "ok"
+                else
+                  -- exact replay: generated counts (observed when generation is stochastic), targets, uniforms
+                  let gen := if det then genModel else suitIdx.map fun k => dispO[k]!
+                  let (p0, _) := generateStep g st.suit gen none { st.pest with outside := [] }
+                  let env : DisperseEnv := { mt := st.mt, stochastic := sto == "1", pEst := pEst, npop := npop, w := w }
+                  match disperseStep g env st.suit pre p0 targets st.uniforms with
+                  | .error e => finish st1 o s!"MISMATCH hp.spread model={errTok e}"
+                  | .ok (cells', p', _, _) =>
+                    if p'.disp != dispO then finish st1 o "MISMATCH hp.spread dispersers"
+                    else if p'.est != estO then finish st1 o s!"MISMATCH hp.spread established model={p'.est} observed={estO}"
+                    else if p'.outside != outO then finish st1 o "MISMATCH hp.spread outside"
+                    else finish st1 o (cmpCells cmd cells' post)
+          | _, _, _ => (st, "BADLINE spread-obs")
+        | _, _, _, _, _, _, _, _, _ => (st, "BADLINE spread")
+      -- overpopulation through the model: threshold leaving drow dcol (deterministic neighbour kernel)
+      | "hp.overpop", [thr, leave, dr, dc] =>
+        match parseRat? thr, parseRat? leave, parseInt? dr, parseInt? dc, segments obsToks with
+        | some thr, some leave, some dr, some dc, [_, _, _, outT] =>
+          match outT.mapM pair? with
+          | none => (st, "BADLINE")
+          | some outO =>
+            let g : Grid := { rows := st.rows, cols := st.cols }
+            match invariants pre post reclass true noSkip with
+            | some v => finish st o v
+            | none =>
+              let departing := st.suit.filter fun (r, c) =>
+                let cell := pre[g.idx r c]!
+                decide (cell.i > 1) && decide (((cell.i : Int) : Rat) / ((cell.s + cell.i : Int) : Rat) ≥ thr)
+              let targets := departing.map fun (r, c) => (r + dr, c + dc)
+              -- C17: cells that do not qualify keep their pests; a source loses round(i x share)
+              let stay : Option String := (List.range pre.length).findSome? fun k =>
+                let a := pre[k]!; let b := post[k]!
+                let isDep := departing.any fun (r, c) => g.idx r c == k
+                if !isDep && b.i < a.i then some s!"PROPFAIL C17 departure_rule cell={k} pre={showCell a} post={showCell b}" else none
+              match stay with
+              | some v => finish st o v
+              | none =>
+                let expOut := (departing.zip targets).flatMap fun ((r, c), (tr, tc)) =>
+                  if g.isOutside tr tc then List.replicate (lround (((pre[g.idx r c]!).i : Rat) * leave)).toNat (tr, tc) else []
+                if outO != expOut then finish st o s!"PROPFAIL C17 outside_recorded observed={outO.length} expected={expOut.length}"
+                else
+                  let (cells', _, _) := overpopulationStep g st.suit pre { st.pest with outside := [] } thr leave targets
+                  finish st o (cmpCells cmd cells' post)
+        | _, _, _, _, _ => (st, "BADLINE")
+      -- host movement through the model: step last sched:r1,c1,r2,c2,n ...  => newlast
+      | "hp.movement", stepTok :: lastTok :: rowToks =>
+        let rows? : Option (List (Nat × List Int)) := rowToks.mapM fun t =>
+          match t.splitOn ":" with
+          | [s, r] => do let s ← parseNat? s; let r ← intList? r; some (s, r)
+          | _ => none
+        match parseNat? stepTok, parseNat? lastTok, rows?, o.ret with
+        | some step, some last, some rows, [newLast] =>
+          let (apply, cursor) := movementRows (rows.map (·.1)) last step
+          let total (l : List Cell) : Int := sumL (l.map Cell.hosts)
+          if toString cursor ≠ newLast then finish st o s!"PROPFAIL C17 movement_once cursor={newLast} expected={cursor}"
+          else if total post != total pre then finish st o s!"PROPFAIL C01 movement_relocates_only before={total pre} after={total post}"
+          else if pre.all Cell.nonNeg && !(post.all Cell.nonNeg) then finish st o "PROPFAIL C02 nonneg movement"
+          else if pre.all Cell.totalsOK && !(post.all Cell.totalsOK) then finish st o "PROPFAIL C03 totals movement"
+          else if pre.all (fun c => c.mortOK && c.totalsOK) && !(post.all Cell.mortOK) then finish st o "PROPFAIL C03 mortality_cohorts movement"
+          else
+            match apply with
+            | [] => finish st o (if post == pre && o.suit == st.suit then "ok" else "PROPFAIL C17 movement_without_scheduled_row")
+            | [k] =>
+              match (rows[k]!).2 with
+              | [r1, c1, r2, c2, n] => finish st o (checkMove st pre post o.suit r1 c1 r2 c2 n none)
+              | _ => (st, "BADLINE")
+            | _ => finish st o "ok"
+        | _, _, _, _ => (st, "BADLINE")
       | _, _ => (st, "BADLINE cmd")
 
 end Pops.Driver.HostEng
